@@ -68,6 +68,14 @@ CLAIMS = {
    level=("model_checking", "Same Detector.tla runs with C11_NeedsEvidence (live => at least two strictly increasing heartbeat values observed), C11_StaleIgnored (equal/lower/replayed/relayed heartbeats change nothing but the observer's own heartbeat) and C11_Steady (arrivals within [a,b], b <= max_interval, phi >= b/min(a, initial) => live at every evaluation).", "6 (C11)"),
    note="C11_Steady reads the (unobservable) sampling window and is therefore judged on conforming executions only; otherwise as C10",
    technique="TLA+ model checking (Detector.tla/FdOps.tla) + edge replay + TLC trace validation + observer spec"),
+ "C15": dict(
+   level=("model_checking", "Listeners.tla states, for every case (subscriptions with the fate of their handles held/dropped/forever x key x 11 kinds of local and replicated key events), exactly which callbacks the property demands; TLC enumerates all cases over the alphabet {a, b, é (2 bytes), 𝄞 (4 bytes)} (quick: every single (prefix,key) pair up to length 2 and all three-subscription sets over short prefixes; thorough: length 3); each case runs on a real node through subscribe_event, local writes and replicated writes; differing observations are judged by C15_Dispatch on the observed calls.", "6 (C15)"),
+   note="defect F-2 (panic on keys starting with a multi-byte character) was found by this check and repaired by a fix: commit; replicated writes are injected as crafted ACKs; exhaustive within the string-length bounds",
+   technique="TLA+ exhaustive case enumeration (Listeners.tla) + replay of every case on a real node + observer spec"),
+ "C17": dict(
+   level=("model_checking", "PeerSelection.tla enumerates every (peers, live, dead, seeds) input over 6 addresses up to address renaming (1716 canonical inputs) and defines the allowed outputs (Allowed) plus the two 'always' clauses as TLC-checked invariants; the real select_nodes_for_gossip is called on every input under several address assignments and a battery of scripted RNGs (constant extremes, counters, strides, every 7-draw script over spread values, seeded streams); every distinct observed (input, output) pair is judged by TLC against the same formulas.", "6 (C17)"),
+   note="HashSet iteration order is random per process, so the set of outputs actually observed varies between runs; exhaustive over subset structure, sampled over RNG outputs",
+   technique="TLA+ exhaustive input enumeration (PeerSelection.tla) + real calls under scripted RNGs + observer spec"),
 }
 PENDING = "specification module for this property not built yet in this revision (see DESIGN.md section 10 build order)"
 
